@@ -36,7 +36,7 @@ SRC = Path("/repo/src/aiomysensors")
 FILE_CHECKS = {
     "model/message.py": ["C01", "C02", "C03", "C18"],
     "model/node.py": ["C04", "C13", "C14", "C16"],
-    "model/const.py": ["C11", "C02", "C01"],
+    "model/const.py": ["C11", "C02", "C01", "C14", "C13"],
     "model/protocol/__init__.py": ["C05", "C19", "C03", "C01"],
     "model/protocol/protocol_14.py": ["C03", "C04", "C05", "C06", "C07", "C10", "C11", "C12", "C19", "C13", "C01", "C02"],
     "model/protocol/protocol_15.py": ["C05", "C19", "C01", "C02", "C03"],
@@ -323,11 +323,13 @@ SURVIVOR_RULES = [
      "validator consults them (any integer type is accepted, C01)"),
     (r"persistence\.py", lambda r: r["line"] == 18 and r["new"] == "899", "saves more often than required"),
     (r"persistence\.py", lambda r: r["line"] in (29, 33, 34, 35), "dataclass field options (init / repr / compare)"),
-    (r"persistence\.py", lambda r: r["line"] in (94, 99), "with the save lock (74bd270) a cancelled saver that is not "
-                                                         "awaited still finishes before the final save can start; the "
-                                                         "re-raise only matters for a stop() that is itself cancelled "
-                                                         "before the saver ever ran"),
-    (r"persistence\.py", lambda r: r["line"] in (106, 108), "stop() without start() / second stop(): outside C16"),
+    (r"persistence\.py", lambda r: r["line"] == 109, "the re-raise only matters for a stop() that is itself cancelled before the "
+                                                    "saver ever ran; C16's cancelled-exit workloads then still see the final "
+                                                    "state they demand"),
+    (r"persistence\.py", lambda r: r["line"] in (90, 91, 93, 94) or "save.cancelled()" in r["old"],
+     "inside fix d69dcef: when the cancellation is not caught there the SHIELDED save still runs to its end holding the save "
+     "lock (74bd270), so the final save cannot overtake it; retrieving the save's exception only silences a warning"),
+    (r"persistence\.py", lambda r: r["line"] in (116, 118), "stop() without start() / second stop(): outside C16"),
     (r"transport/__init__\.py", lambda r: "drain" in r["old"], "without drain the bytes still reach the peer in call order "
                                                               "(asyncio flushes on close); only flow control is lost, "
                                                               "which C17 does not state"),
